@@ -331,9 +331,8 @@ func c18Downloads(c *Ctx) (scripts, steps int64) {
 						map[string]interface{}{"part": "download", "length": f.L, "chunk_size": f.cs, "script": trace})
 					break
 				}
-				if werr != nil && op.kind != "read" {
-					break // both failed: the stream position after a failed seek is not specified further
-				}
+				// both failed: like the in-memory reader, the stream stays usable at its unchanged position,
+				// the rest of the script goes on
 			}
 			_ = ds.Close()
 			atomic.AddInt64(&scripts, 1)
